@@ -610,12 +610,15 @@ var c31Blockers = []struct {
 	{"for i in {1..16000} {1..16000} {1..16000} {1..16000} {1..16000} {1..16000}; do x=$i; done; while :; do :; done", "nil", false},
 	{"read x", "pipe", false},
 	// an external command or `test -t` first, then a blocking builtin — only the shapes that do NOT
-	// call Fd() on the runner's stdin (the others are the open finding C31-read-after-fd-*, replayed
+	// call Fd() on the runner's stdin (an external command inheriting stdin is the open finding C31-read-after-fd-exec/-mapfile, replayed
 	// from the corpus): stdin redirected away from the child, other descriptors tested
 	{"/bin/true </dev/null; read x", "pipe", false},
 	{"/bin/true </dev/null; mapfile -t a", "pipe", false},
 	{"echo hi | /bin/cat >/dev/null; read x", "pipe", false},
 	{"[ -t 1 ]; [ -t 2 ]; read x", "pipe", false},
+	{"[ -t 0 ]; read x", "pipe", false}, // cancellable again since d41cde1
+	{"test -t 0; mapfile -t a", "pipe", false},
+	{"if [ -t 0 ]; then :; fi; select s in a b; do :; done", "pipe", false},
 	{"test -t 1; while read l; do :; done", "pipe", false},
 	{"true; select s in a b; do :; done", "pipe", false},
 	{"/bin/true; while :; do :; done", "nil", false},
